@@ -38,13 +38,15 @@ def table():
                     elif body[k2] == '}':
                         depth -= 1
                         if depth == 0: fb = body[j:k2 + 1]; break
-                fns[m.group(1)] = {'mut': bool(m.group(2)), 'args': (m.group(3) or '').strip().rstrip(','), 'ret': (m.group(4) or '').strip(), 'removes': '.remove(' in fb}
+                fns[m.group(1)] = {'mut': bool(m.group(2)), 'args': (m.group(3) or '').strip().rstrip(','), 'ret': (m.group(4) or '').strip(), 'removes': '.remove(' in fb,
+                                    'lits': set(re.findall(r'"([A-Z][A-Za-z0-9]*(?:-[A-Za-z0-9]+)*)"', fb))}
             for name, f in fns.items():
                 if not name.startswith('set_') or not f['mut']: continue
                 base = name[4:]
                 g = fns.get(base)
                 args = [a.split(':', 1)[1].strip() for a in split_args(f['args'])]
-                out.append({'crate': crate, 'module': module, 'type': ty, 'setter': name, 'args': args, 'getter': base if g else None, 'ret': g['ret'] if g else None, 'removes': f['removes']})
+                out.append({'crate': crate, 'module': module, 'type': ty, 'setter': name, 'args': args, 'getter': base if g else None, 'ret': g['ret'] if g else None, 'removes': f['removes'],
+                            'literals': sorted(f['lits'] | (g['lits'] if g else set()))})      # field-name-like string constants in the two bodies: the names the pair may read or write
             for name, f in fns.items():
                 if f['mut'] or name.startswith('set_') or f['args']: continue
                 if ('set_' + name) in fns: continue
